@@ -42,7 +42,9 @@ THEOREMS = [
     'C16.centering_inverse', 'C16.centering_det',
     # reduce_indices / all_indices
     'C16.gcdList_spec', 'C16.reduce_coprime', 'C16.reduce_same_direction', 'C16.reduce_zero',
-    'C16.allIndices_complete', 'C16.allIndices_sound', 'C16.allIndices_reduce_complete',
+    'C16.allIndices_complete', 'C16.allIndices_sound', 'C16.allIndices_reduce_complete', 'C16.allIndices_reduce_coprime',
+    # order of the rows of an array of planes (round 5)
+    'C16.planeArr_cons', 'C16.planeArr_reverse', 'C16.planeArr_perm',
     # fromstring: index strings parse to the numbers they show
     'C16.parseInt_renderInt', 'C16.fromString_render', 'C16.fromString_renderW',
     # family identification
@@ -1736,6 +1738,37 @@ def _pattern_orders(rng, n_pairs, hi=6, nonneg=False):
         rest = [q for q in PATTERNS if q != p]
         rng.shuffle(rest)
         out.append(([p] + rest, [base[p]] + [base[q] for q in rest]))
+    # neighbours that are RELATED: the same plane twice, its negative, one sign flipped, a multiple, a permutation, the
+    # same again (state carried from row to row - a memo of the previous row, a running sign - shows only here)
+    for _ in range(2):
+        p = rng.choice(PATTERNS)
+        r0 = _pattern_row(rng, p, hi, nonneg)
+        seq, names = [r0], [p]
+        for _j in range(rng.randint(4, 7)):
+            prev = seq[-1] if rng.random() < 0.7 else r0
+            kind = rng.choice(['same', 'neg', 'flip', 'double', 'perm', 'abs'])
+            if nonneg and kind in ('neg', 'flip'):
+                kind = 'perm'
+            if kind == 'same':
+                x = list(prev)
+            elif kind == 'neg':
+                x = [-v for v in prev]
+            elif kind == 'flip':
+                nzi = [i for i, v in enumerate(prev) if v]
+                i = rng.choice(nzi)
+                x = list(prev)
+                x[i] = -x[i]
+            elif kind == 'double':
+                f_ = rng.choice([2, 3])
+                x = [f_ * v for v in prev] if max(abs(v) for v in prev) * f_ <= 120 else list(prev)
+            elif kind == 'perm':
+                x = list(prev)
+                rng.shuffle(x)
+            else:
+                x = [abs(v) for v in prev]
+            seq.append(x)
+            names.append(kind)
+        out.append((names, seq))
     pairs = [(p, q) for p in PATTERNS for q in PATTERNS]
     if n_pairs < len(pairs):
         pairs = rng.sample(pairs, n_pairs)
@@ -2967,10 +3000,37 @@ def _narrow_rows(rng, dtype, k, cnt, regime, cap=None, third=False):
     return rows
 
 
+def _wrap_guard_rows(rng, dtype, cnt):
+    """four-index sets an integer array of `dtype` can hold whose first three indices sum to +-2^bits (or twice that): NOT
+    zero, so no four-index set at all, but a sum formed IN the dtype wraps to exactly 0.  One such row among valid ones."""
+    lo, hi = NARROW[dtype]
+    bits = {'int8': 8, 'uint8': 8, 'int16': 16, 'uint16': 16, 'int32': 32, 'uint32': 32}[dtype]
+    W = 2 ** bits
+    rows = []
+    for _ in range(cnt):
+        if lo == 0:
+            rows.append([0, 0, 0, rng.randint(1, min(hi, 9))])
+        else:
+            h, k_ = rng.randint(-5, 5), rng.randint(-5, 5)
+            rows.append([h, k_, -(h + k_), rng.randint(1, 6)])
+    sgn = 1 if lo == 0 else rng.choice([1, -1])
+    while True:
+        a = rng.randint(W // 3, hi)
+        b = rng.randint(max(0, W - a - hi), min(hi, W - a))
+        c = W - a - b
+        if 0 <= c <= hi:
+            break
+    t = [a, b, c]
+    rng.shuffle(t)
+    rows[rng.randrange(cnt)] = [sgn * t[0], sgn * t[1], sgn * t[2], rng.randint(1, min(hi, 6))]
+    return rows
+
+
 DTYPE_FNS = [('plane3to4', 3), ('vector3to4', 3), ('plane4to3', 4), ('vector4to3', 4), ('reduce_indices', 3),
              ('reduce_indices', 4), ('vector_crystal_to_cartesian', 3), ('miller.vector_crystal_to_cartesian', 3),
              ('plane_crystal_to_cartesian', 3), ('miller.plane_crystal_to_cartesian', 3),
-             ('vector_primitive_to_conventional', 3), ('vector_conventional_to_primitive', 3)]
+             ('vector_primitive_to_conventional', 3), ('vector_conventional_to_primitive', 3),
+             ('vector_crystal_to_cartesian', 4), ('plane_crystal_to_cartesian', 4)]
 
 
 def _o_dtype(ctx, np, am, miller, case):
@@ -3023,11 +3083,12 @@ def _dtype_cases(rng, ctx, cells):
     others = [c for c in cells if c[3]['hand'] == 'right']
     for name, k in DTYPE_FNS:
         for dtype in NARROW:
-            for regime in ('small', 'limit', 'limit') + (('overflow', 'overflow') if 'plane_crystal' in name and dtype in INT_BITS
-                                                         else ()):
+            for regime in ('small', 'limit', 'limit') + (('overflow', 'overflow') if 'plane_crystal' in name and dtype in INT_BITS and k == 3
+                                                         else ()) + (('wrap-guard', 'wrap-guard') if k == 4 and dtype != 'uint64'
+                                                                     and name != 'reduce_indices' else ()):
                 extra = None
                 if 'crystal_to_cartesian' in name:
-                    label, box, _spec, _cell = rng.choice(others)
+                    label, box, _spec, _cell = rng.choice([c for c in others if k == 3 or c[0].startswith('hexagonal')])
                     extra = {'spec': {'new': {'vects': box.vects.tolist(), 'origin': box.origin.tolist()}, 'then': []},
                              'cell': label}
                 elif 'primitive' in name:
@@ -3036,7 +3097,13 @@ def _dtype_cases(rng, ctx, cells):
                 cnt = 1
                 for d in shape:
                     cnt *= d
-                if regime == 'overflow':    # indices the dtype holds whose product / lcm it does not hold
+                if regime == 'wrap-guard':
+                    shape = rng.choice([[], [1], [2], [3], [2, 2]])
+                    cnt = 1
+                    for d in shape:
+                        cnt *= d
+                    rows = _wrap_guard_rows(rng, dtype, cnt)
+                elif regime == 'overflow':    # indices the dtype holds whose product / lcm it does not hold
                     shape = rng.choice([[2], [3], [5], [2, 2]])
                     cnt = 1
                     for d in shape:
@@ -3046,7 +3113,7 @@ def _dtype_cases(rng, ctx, cells):
                         rows[rng.randrange(cnt)] = [rng.randint(1, 6), rng.randint(-6, 6) if not dtype.startswith('u') else 2, 1]
                 else:
                     rows = _narrow_rows(rng, dtype, k, cnt, regime, cap=10 ** 4 if 'plane_crystal' in name else None,
-                                        third=(name == 'vector4to3' and dtype not in UNSIGNED))
+                                        third=((name == 'vector4to3' or (k == 4 and 'vector_crystal' in name)) and dtype not in UNSIGNED))
                 out.append({'fn': name, 'dtype': dtype, 'rows': rows, 'shape': shape, 'extra': extra, 'regime': regime})
     return out
 
@@ -3054,6 +3121,7 @@ def _dtype_cases(rng, ctx, cells):
 BIG_SIZES = [1023, 1024, 1025, 2047, 2048, 2049, 4095, 4096, 4097, 8191, 8192, 8193,
              1000, 1001, 2001, 5001, 10001, 16383, 16384, 16385, 32767, 32768, 32769]      # 2^k -1/+0/+1 and n = k * block + 1
 HUGE_SIZES = [50001, 65535, 65536, 65537, 70001, 100001, 131073]
+GIANT_SIZES = [262145, 300001, 500001, 524289, 1000001, 1048577]      # vectorised functions only; the LAST one in every run
 
 
 def _big_rows(np, seed, n, k, dtype, hi=9):
@@ -3181,10 +3249,22 @@ def _big_cases(rng, ctx, cells, broken):
         cheap.append(('vector_crystal_to_cartesian', 4, ex_of(rng.choice(hexs))))
     for name, k, extra in cheap:
         sizes = (BIG_SIZES + HUGE_SIZES) if full else BIG_SIZES + rng.sample(HUGE_SIZES, 2)      # vectorised: cheap
+        # a threshold "more than N rows" shows at every size above it: the largest size goes into every run
+        sizes = sizes + (GIANT_SIZES if ctx.thorough else [rng.choice(GIANT_SIZES[:-1]), GIANT_SIZES[-1]])
         for n in sizes:
             dtype = rng.choice(['int64', 'int64', 'int32', 'float64'] if name != 'reduce_indices' else ['int64', 'int32'])
-            out.append({'fn': name, 'n': n, 'k': k, 'seed': rng.getrandbits(32), 'dtype': dtype, 'extra': extra,
-                        'hi': rng.choice([9, 9, 40, 300, 3000, 10 ** 6])})
+            hi = rng.choice([9, 9, 40, 300, 3000, 10 ** 6])
+            case = {'fn': name, 'n': n, 'k': k, 'seed': rng.getrandbits(32), 'dtype': dtype, 'extra': extra, 'hi': hi}
+            if n >= GIANT_SIZES[0]:
+                # size x magnitude: entries beyond 2^31 (int64 / float64 arrays; exact in doubles) in the longest arrays
+                case['dtype'] = dtype = rng.choice(['int64', 'int64', 'int32', 'float64'] if name != 'reduce_indices' else ['int64'])
+                case['hi'] = rng.choice([9, 3000, 2 ** 31 - 1 if dtype == 'int32' else 2 ** 40, 2 ** 31 - 1 if dtype == 'int32' else 2 ** 40])
+                if k == 4 and dtype == 'int32':
+                    case['hi'] = min(case['hi'], 2 ** 29)       # the third index -(h+k) must fit; 2u + v is formed in the array's
+                    #                                             dtype (candidate vector4to3:narrow-int-overflow)
+                case['block'] = 65521
+                case['singles'] = 12
+            out.append(case)
         if name in ('plane4to3', 'vector4to3'):
             for n in rng.sample(BIG_SIZES, 2) + [rng.choice(HUGE_SIZES)]:
                 j = rng.choice([n - 1, n - 1, 0, n // 2, min(n - 1, 4096), min(n - 1, 1024), rng.randrange(n)])
@@ -3543,7 +3623,7 @@ def search(ctx, broken):
     #    between 21 and 36 (vectorised oracle: coprime rows, every direction once, lexicographic order)
     bounds = list(range(0, ctx.n(4, 7))) + [8, 10, 12, 16, 20] + ([25, 32] if ctx.thorough else [])
     bounds += [rng.randint(21, 36)] + (BIG_BOUNDS + BIGGER_BOUNDS if ctx.thorough else
-                                       ([rng.choice(BIG_BOUNDS)] + ([rng.choice(BIG_BOUNDS), rng.choice(BIGGER_BOUNDS[:6])] if broken else [])))
+                                       ([rng.choice(BIG_BOUNDS[:-1]), BIG_BOUNDS[-1]] + ([rng.choice(BIGGER_BOUNDS[:6])] if broken else [])))
     ctx.extra['all_indices_bounds'] = bounds
     for m in bounds:
         ctx.stats.case('oracle:all_indices', m, nontrivial=m > 0)
